@@ -489,9 +489,10 @@ fn registration(ctx: &mut Ctx) {
 
 /// "Or else a fresh unique one": the identities a socket generates share a namespace with the ones
 /// peers announce. An anonymous peer joins and the application learns its generated identity G from
-/// the monitor; a peer then announces an identity next to G (G+-1..4 as a big- or little-endian
-/// number of the same length: what a counter, a clock or a sequence would hand out next), and
-/// further anonymous peers join. Every registration must stay distinct and the announcing peer must
+/// the monitor; if G is short (up to 8 bytes: the range in which applications number their peers) a
+/// peer then announces an identity next to G (G+-1..4 as a big- or little-endian number of the same
+/// length: what a counter, a clock or a sequence would hand out next), and further anonymous peers
+/// join. Every registration must stay distinct and the announcing peer must
 /// stay a peer under the identity it announced.
 fn predicted_identity(ctx: &mut Ctx) {
     world::swarm(ctx, SwarmOpts::default());
@@ -513,6 +514,7 @@ fn predicted_identity(ctx: &mut Ctx) {
         routed: bool,
         announcer_probe: usize,
         done: bool,
+        skipped: bool,
     }
     let r = Rc::new(RefCell::new(R::default()));
     let r2 = r.clone();
@@ -544,6 +546,17 @@ fn predicted_identity(ctx: &mut Ctx) {
         let Some(g) = take_ids(&mut mon, "the anonymous probe", &r2) else {
             return world::park().await;
         };
+        // Only short generated identities are predicted. Up to 8 bytes is where applications number
+        // their peers (worker 1, 2, 3 ...; a u64), so a generator that hands out values there meets
+        // identities that were chosen without any knowledge of it. A longer identity drawn from a
+        // secret random base (a UUID; a random 128-bit start that is counted up, as libzmq does with
+        // 32 bits) can only be met by a peer that has been shown generated identities by the
+        // application, and the statement does not promise anything to such a peer.
+        if g.len() > 8 {
+            rt::count("probe_generated_identity_longer_than_8_bytes_not_predicted");
+            r2.borrow_mut().skipped = true;
+            return world::park().await;
+        }
         // the guess
         let mut guess = g.clone();
         let bump = |v: &mut Vec<u8>, up: bool, le: bool, by: u8| {
@@ -675,6 +688,8 @@ fn predicted_identity(ctx: &mut Ctx) {
             ctx.violation("routed_to_another_peer", format!("{tag}: a message addressed to the announced identity reached the announcing peer {} times and the later anonymous peers {} times", o.announcer_after - o.announcer_before, o.others_after));
         }
         ctx.nontrivial();
+    } else if o.skipped {
+        ctx.nontrivial();
     } else if end == rt::RunEnd::Quiescent && ctx.sim.rt.panics.borrow().is_empty() && !o.generated.is_empty() {
         ctx.violation("stuck", format!("{tag}: the scenario never completed"));
     }
@@ -715,7 +730,7 @@ pub fn def() -> PropDef {
     PropDef {
         id: "C04",
         level: "fault_enumeration",
-        rule: "handshake: grid = local socket type (9) x peer Socket-Type (12 names, unknown, missing) x version {1.0,2.1,3.0,3.1,4.0} x mechanism {NULL,PLAIN,CURVE,unknown} x signature {ok, byte 0 wrong, byte 9 wrong} x identity {none, empty, 1, 255, 256 bytes} x first item {READY, other command, message} x side {accepted, connected} = 226800 scripted handshakes, each with drawn segmentation/schedule and, in half of the cases, drawn extra READY metadata (a short property, one 400-byte value, twenty properties, a property ahead of Socket-Type) that must decide nothing, and a drawn moment at which the monitor is installed (before bind, only after bind, or replaced after bind), compared with a reference admission predicate written from the statement and the RFC compatibility table (thorough: enumerated completely; quick: pseudo-random sample); observables: application message exchanged or not, monitor Accepted/AcceptFailed, connect() result, connection closed by the socket; registration: socket type (9) x 2..4 admissible peers, each announcing no identity, an empty one or a distinct non-empty one (1 byte, 255 bytes, leading zero byte, trailing zero bytes, white space), joining by connect-in at drawn times or by being dialled: exactly one admission event per peer, under the announced identity resp. pairwise distinct ones, no admitted connection closed by the socket, and each peer's traffic flows exactly once (probe delivered once / one copy per subscriber / n sends reach n peers); readmission: the 96 departure/rejoin histories of C16 judged for 'the peer admitted again under its announced identity is registered: heard, reachable, labelled, connection kept'; predicted_identity: socket type (9) x an identity announced next to a generated one (+-1..4, big or little endian) x 1..5 later anonymous peers, accepted or dialled: all registrations pairwise distinct, the announcing peer keeps its connection, its traffic and (ROUTER) its address; compat_table: the 144 SocketType::compatible queries (pure enumeration, a side check); distinct = distinct (configuration, plan, schedule, transport)",
+        rule: "handshake: grid = local socket type (9) x peer Socket-Type (12 names, unknown, missing) x version {1.0,2.1,3.0,3.1,4.0} x mechanism {NULL,PLAIN,CURVE,unknown} x signature {ok, byte 0 wrong, byte 9 wrong} x identity {none, empty, 1, 255, 256 bytes} x first item {READY, other command, message} x side {accepted, connected} = 226800 scripted handshakes, each with drawn segmentation/schedule and, in half of the cases, drawn extra READY metadata (a short property, one 400-byte value, twenty properties, a property ahead of Socket-Type) that must decide nothing, and a drawn moment at which the monitor is installed (before bind, only after bind, or replaced after bind), compared with a reference admission predicate written from the statement and the RFC compatibility table (thorough: enumerated completely; quick: pseudo-random sample); observables: application message exchanged or not, monitor Accepted/AcceptFailed, connect() result, connection closed by the socket; registration: socket type (9) x 2..4 admissible peers, each announcing no identity, an empty one or a distinct non-empty one (1 byte, 255 bytes, leading zero byte, trailing zero bytes, white space), joining by connect-in at drawn times or by being dialled: exactly one admission event per peer, under the announced identity resp. pairwise distinct ones, no admitted connection closed by the socket, and each peer's traffic flows exactly once (probe delivered once / one copy per subscriber / n sends reach n peers); readmission: the 96 departure/rejoin histories of C16 judged for 'the peer admitted again under its announced identity is registered: heard, reachable, labelled, connection kept'; predicted_identity: socket type (9) x an identity announced next to a generated one (+-1..4, big or little endian; only when generated identities are at most 8 bytes long) x 1..5 later anonymous peers, accepted or dialled: all registrations pairwise distinct, the announcing peer keeps its connection, its traffic and (ROUTER) its address; compat_table: the 144 SocketType::compatible queries (pure enumeration, a side check); distinct = distinct (configuration, plan, schedule, transport)",
         assumptions: &["'known mechanism' is read as NULL, PLAIN or CURVE in the greeting, as the statement says (the library then performs the NULL handshake)", "the RFC table used by the oracle lists PAIR-PAIR, PUB/XPUB-SUB/XSUB, REQ-REP/ROUTER, DEALER-REP/DEALER/ROUTER, ROUTER-ROUTER, PUSH-PULL"],
         strata: vec![
             Stratum { name: "handshake", quick: 150_000, thorough: (GRID_SIZE) * 10, exhaustive: (false, true), run: handshake, what: "configuration grid of scripted handshakes vs the admission predicate" },
